@@ -24,6 +24,8 @@ import (
 //	                                                                              (c10_bolt.go)
 //	O <dataset> <text>               the query through an objectz.ObjectStore, judged for panics only
 //	                                                                              (c10_objz.go)
+//	H <schema> <text> <text> ...     a history of ast.Parse calls in one process; every call must answer
+//	                                 as if it were the only one                   (c10_hist.go)
 //
 // tok: ANTLR token type numbers of the real lexer up to the first token recognition error
 // (`!pos` = code point index at which it was reported).  acc: zitiql.Parse reported no error.
@@ -329,6 +331,8 @@ func c10ExecCase(line string) string {
 		return c10ExecBolt(f)
 	case "O":
 		return c10ExecObj(f)
+	case "H":
+		return c10ExecHist(f)
 	}
 	return "bad-case"
 }
